@@ -25,25 +25,27 @@ Proof.
   unfold known in H. rewrite forallb_forall in H. specialize (H c Hc). apply N.ltb_lt in H. lia.
 Qed.
 
-(* C15_no_crash, partial: validate + a well-formed criteria table => no crash.
-   The table conditions are NOT checked by Store::validate (known findings). *)
-Theorem no_crash_partial locked shadows t max_end ends r :
-  shadows = false -> Nat.leb (ct_len t) MAX_CRITERIA = true -> ct_acyclic t = true ->
-  load_outcome locked shadows t max_end ends r <> Panics.
+(* C15_no_crash: whatever the store and the peer files contain, loading never crashes: validate refuses
+   undefined references at every indexed site AND an unusable criteria table, and a peer's unusable table is
+   refused before a mapper is built from it *)
+Theorem no_crash locked shadows t max_end ends r ps :
+  VALIDATE_CHECKS_TABLE = true -> PEER_TABLE_CHECKED = true -> load_outcome locked shadows t max_end ends r ps <> Panics.
 Proof.
-  intros -> H1 H2. unfold load_outcome.
+  intros K1 K2. unfold load_outcome, validate_table. rewrite K1, K2. cbn [negb orb].
   destruct (validate_criteria locked (ct_len t) r) eqn:V; cbn [andb negb]; [|discriminate].
-  destruct (validate_wildcard_ends max_end ends); cbn [negb]; [|discriminate].
-  unfold mapper_panics. rewrite H1, H2, (validated_store_does_not_index_unknown _ _ _ V). cbn. discriminate.
+  destruct (validate_wildcard_ends max_end ends); cbn [andb negb]; [|discriminate].
+  destruct (mapper_panics shadows t); cbn [negb orb]; [discriminate|].
+  destruct (negb locked && bad_peer ps); [discriminate|].
+  rewrite (validated_store_does_not_index_unknown _ _ _ V). discriminate.
 Qed.
 
 (* the wildcard end-date cap: a loaded store has no own wildcard audit ending after the cap *)
-Theorem wildcard_end_cap locked shadows t max_end ends r e :
-  load_outcome locked shadows t max_end ends r <> Refused -> In e ends -> (e <= max_end)%Z.
+Theorem wildcard_end_cap locked shadows t max_end ends r ps e :
+  load_outcome locked shadows t max_end ends r ps <> Refused -> In e ends -> (e <= max_end)%Z.
 Proof.
   unfold load_outcome. intros H He.
   destruct (validate_criteria locked (ct_len t) r); cbn [andb negb] in H; [|congruence].
-  destruct (validate_wildcard_ends max_end ends) eqn:W; cbn [negb] in H; [|congruence].
+  destruct (validate_wildcard_ends max_end ends) eqn:W; cbn [andb negb] in H; [|congruence].
   unfold validate_wildcard_ends in W. rewrite forallb_forall in W. specialize (W e He).
   unfold wildcard_end_refused in W. apply negb_true_iff in W. apply Z.ltb_ge in W. exact W.
 Qed.
